@@ -128,6 +128,33 @@ def run(ctx, report: Report) -> None:
         r3.violation('parse_pseudo_class_custom undefined guard', pmod.where(cfn),
                      'a reference to a name that is missing from the table no longer raises SelectorSyntaxError')
 
+    # the text handed to a (nested) parser is text: a value read from the shared custom table may already be compiled
+    tf = ctx.types
+    n_ctor = 0
+    for mn, mod in src.mods.items():
+        for c in [n for n in ast.walk(mod.tree) if isinstance(n, ast.Call)]:
+            if src.resolve_class_ref(mod, c.func) != 'css_parser.CSSParser' or not (c.args or c.keywords):
+                continue
+            arg = c.args[0] if c.args else next((k.value for k in c.keywords if k.arg == 'selector'), None)
+            if arg is None:
+                continue
+            t = tf.type_of(mn, arg)
+            kinds = sorted(set(tf.instance_names(t))) if t is not None else None
+            const = inv.folder.try_ev(mn, arg, default=None)
+            ok = isinstance(const, str) or kinds == ['builtins.str']
+            n_ctor += 1
+            r3.instance({'site': f'{mn}.{mod.enclosing_function(c) or "<module>"}', 'pattern_argument': unparse(arg)[:50],
+                         'static_type': kinds if not isinstance(const, str) else 'constant str'}, key=f'ctor|{mod.where(c)}',
+                        sample_cap=4)
+            r3.obligation(ok)
+            if not ok:
+                r3.violation(f'{mn}.{mod.enclosing_function(c)} CSSParser({unparse(arg)[:30]}) type', mod.where(c),
+                             f'CSSParser({unparse(arg)[:40]}, ...) in {mod.enclosing_function(c)}: the pattern argument has static type '
+                             f'{kinds} at this point - not narrowed to str. An entry of the custom table that was already compiled '
+                             f'(a SelectorList) would be parsed as text and raise AttributeError/TypeError out of compile()')
+    if n_ctor < 3:
+        raise AnalysisError('fewer than three CSSParser(...) constructions found')
+
     # ---- R4 ------------------------------------------------------------------------------------------------
     r4 = report.rule('C06-R4', 'arguments of the memoised compiler are hashable', floor=4)
     from .sem import compile_table
